@@ -861,6 +861,46 @@ func verifH_C10_text() {
 			b = append(b, ch)
 		}
 	}
+	if verifParam("pad", 0) == 1 {
+		// a run of blanks is inserted in front of a chosen word so that the word
+		// straddles the scanner's 1024-byte read buffer: its first j bytes (1..6, by
+		// choice) end the first buffer, the rest starts the second
+		var starts, lens []int
+		inQ := false
+		for i := 0; i < len(tmpl); i++ {
+			if tmpl[i] == '\'' {
+				inQ = !inQ
+			}
+			isW := func(c byte) bool { return c >= 'a' && c <= 'z' || c >= '0' && c <= '9' || c == '_' }
+			if !inQ && isW(tmpl[i]) && (i == 0 || !isW(tmpl[i-1])) && i > 0 && tmpl[i-1] == ' ' {
+				n := 0
+				for i+n < len(tmpl) && isW(tmpl[i+n]) {
+					n++
+				}
+				if n >= 2 {
+					starts = append(starts, i)
+					lens = append(lens, n)
+				}
+			}
+		}
+		if len(starts) == 0 || double || newline {
+			verifAssume(false)
+		}
+		w := verifChoice("pad-word", len(starts))
+		maxJ := lens[w] - 1
+		if maxJ > 6 {
+			maxJ = 6
+		}
+		j := 1 + verifChoice("pad-split", maxJ)
+		// without doubled separators the rendering has the template's offsets
+		at := starts[w]
+		fill := 1024 - j - at
+		padded := append([]byte{}, b[:at]...)
+		for k := 0; k < fill; k++ {
+			padded = append(padded, ' ')
+		}
+		b = append(padded, b[at:]...)
+	}
 	got := verifTokensOf(string(b))
 	verifAssert(len(got) == len(canon), "token-count")
 	for i := range canon {
